@@ -1,6 +1,7 @@
 package actionlint
 
 import (
+	"sort"
 	"strconv"
 	"strings"
 )
@@ -70,7 +71,8 @@ func (rule *RuleExpression) VisitWorkflowPre(n *Workflow) error {
 			rule.checkStrings(e.Cron, "")
 		case *WorkflowDispatchEvent:
 			ity := NewEmptyStrictObjectType()
-			for id, i := range e.Inputs {
+			for _, id := range keysInSourceOrder(e.Inputs, func(i *DispatchInput) *String { return i.Name }) {
+				i := e.Inputs[id]
 				rule.checkString(i.Description, "")
 				rule.checkString(i.Default, "")
 				rule.checkBool(i.Required, "")
@@ -149,7 +151,8 @@ func (rule *RuleExpression) VisitWorkflowPre(n *Workflow) error {
 			// exist. When `e.Secrets` is an empty map, `secrets:` exists but it has no child.
 			if e.Secrets != nil {
 				sty := NewEmptyStrictObjectType()
-				for id, s := range e.Secrets {
+				for _, id := range keysInSourceOrder(e.Secrets, func(s *WorkflowCallEventSecret) *String { return s.Name }) {
+					s := e.Secrets[id]
 					sty.Props[id] = StringType{}
 					rule.checkString(s.Description, "")
 					rule.checkBool(s.Required, "")
@@ -157,7 +160,8 @@ func (rule *RuleExpression) VisitWorkflowPre(n *Workflow) error {
 				rule.secretsTy = sty
 			}
 
-			for _, o := range e.Outputs {
+			for _, id := range keysInSourceOrder(e.Outputs, func(o *WorkflowCallEventOutput) *String { return o.Name }) {
+				o := e.Outputs[id]
 				rule.checkString(o.Description, "")
 				// o.Value will be checked in VisitWorkflowPost
 			}
@@ -242,7 +246,8 @@ func (rule *RuleExpression) VisitJobPre(n *Job) error {
 
 	if n.Services != nil {
 		rule.checkObjectExpression(n.Services.Expression, "services", "jobs.<job_id>.services")
-		for _, s := range n.Services.Value {
+		for _, id := range keysInSourceOrder(n.Services.Value, func(s *Service) *String { return s.Name }) {
+			s := n.Services.Value[id]
 			rule.checkContainer(s.Container, "jobs.<job_id>.services", "<service_id>")
 		}
 	}
@@ -261,7 +266,8 @@ func (rule *RuleExpression) VisitJobPost(n *Job) error {
 		rule.checkString(n.Environment.Name, "jobs.<job_id>.environment")
 		rule.checkString(n.Environment.URL, "jobs.<job_id>.environment.url")
 	}
-	for _, output := range n.Outputs {
+	for _, id := range keysInSourceOrder(n.Outputs, func(o *Output) *String { return o.Name }) {
+		output := n.Outputs[id]
 		rule.checkString(output.Value, "jobs.<job_id>.outputs.<output_id>")
 	}
 
@@ -285,7 +291,8 @@ func (rule *RuleExpression) VisitStep(n *Step) error {
 		rule.checkString(e.WorkingDirectory, "jobs.<job_id>.steps.working-directory")
 	case *ExecAction:
 		rule.checkString(e.Uses, "")
-		for n, i := range e.Inputs {
+		for _, n := range keysInSourceOrder(e.Inputs, func(i *Input) *String { return i.Name }) {
+			i := e.Inputs[n]
 			if e.Uses != nil && strings.HasPrefix(e.Uses.Value, "actions/github-script@") && n == "script" {
 				rule.checkScriptString(i.Value, "jobs.<job_id>.steps.with")
 			} else {
@@ -462,7 +469,8 @@ func (rule *RuleExpression) checkEnv(env *Env, workflowKey string) {
 	}
 
 	if env.Vars != nil {
-		for _, e := range env.Vars {
+		for _, n := range keysInSourceOrder(env.Vars, func(e *EnvVar) *String { return e.Name }) {
+			e := env.Vars[n]
 			rule.checkString(e.Name, workflowKey)
 			rule.checkString(e.Value, workflowKey)
 		}
@@ -521,7 +529,8 @@ func (rule *RuleExpression) checkWorkflowCall(c *WorkflowCall) {
 		rule.Error(c.Uses.Pos, escapeNonPrint(err.Error()))
 	}
 
-	for n, i := range c.Inputs {
+	for _, n := range keysInSourceOrder(c.Inputs, func(i *WorkflowCallInput) *String { return i.Name }) {
+		i := c.Inputs[n]
 		ts := rule.checkString(i.Value, "jobs.<job_id>.with.<with_id>")
 
 		if m == nil {
@@ -572,7 +581,8 @@ func (rule *RuleExpression) checkWorkflowCall(c *WorkflowCall) {
 		}
 	}
 
-	for _, s := range c.Secrets {
+	for _, n := range keysInSourceOrder(c.Secrets, func(s *WorkflowCallSecret) *String { return s.Name }) {
+		s := c.Secrets[n]
 		rule.checkString(s.Value, "jobs.<job_id>.secrets.<secrets_id>")
 	}
 }
@@ -925,7 +935,8 @@ func (rule *RuleExpression) checkMatrix(m *Matrix) *ObjectType {
 					rule.checkObjectExpression(combi.Expression, "exclude", "jobs.<job_id>.strategy")
 					continue
 				}
-				for _, a := range combi.Assigns {
+				for _, n := range keysInSourceOrder(combi.Assigns, func(a *MatrixAssign) *String { return a.Key }) {
+					a := combi.Assigns[n]
 					rule.checkRawYAMLValue(a.Value)
 				}
 			}
@@ -934,7 +945,8 @@ func (rule *RuleExpression) checkMatrix(m *Matrix) *ObjectType {
 
 	o := NewEmptyStrictObjectType()
 
-	for n, r := range m.Rows {
+	for _, n := range keysInSourceOrder(m.Rows, func(r *MatrixRow) *String { return r.Name }) {
+		r := m.Rows[n]
 		o.Props[n] = rule.checkMatrixRow(r)
 	}
 
@@ -974,7 +986,8 @@ func (rule *RuleExpression) checkMatrix(m *Matrix) *ObjectType {
 			continue
 		}
 
-		for n, assign := range combi.Assigns {
+		for _, n := range keysInSourceOrder(combi.Assigns, func(a *MatrixAssign) *String { return a.Key }) {
+			assign := combi.Assigns[n]
 			ty := rule.checkRawYAMLValue(assign.Value)
 			if t, ok := o.Props[n]; ok {
 				// When the combination exists in 'matrix' section, merge type with existing one
@@ -1036,7 +1049,8 @@ func (rule *RuleExpression) checkWorkflowCallOutputs(outputs map[string]*Workflo
 	}
 	rule.jobsTy = NewStrictObjectType(props)
 
-	for _, o := range outputs {
+	for _, n := range keysInSourceOrder(outputs, func(o *WorkflowCallEventOutput) *String { return o.Name }) {
+		o := outputs[n]
 		rule.checkString(o.Value, "on.workflow_call.outputs.<output_id>.value")
 	}
 }
@@ -1108,4 +1122,22 @@ func typeOfActionOutputs(meta *ActionMetadata) *ObjectType {
 		props[strings.ToLower(n)] = StringType{}
 	}
 	return NewStrictObjectType(props)
+}
+
+// keysInSourceOrder returns keys of the map ordered by positions of names of their values. Order of
+// iterating map is random in Go. Checking values in the order they are written in source keeps the
+// order of errors stable even when two of them are reported at the same position.
+func keysInSourceOrder[V any](m map[string]V, name func(V) *String) []string {
+	ks := make([]string, 0, len(m))
+	for k := range m {
+		ks = append(ks, k)
+	}
+	sort.Slice(ks, func(i, j int) bool {
+		l, r := name(m[ks[i]]), name(m[ks[j]])
+		if l != nil && r != nil && l.Pos != nil && r.Pos != nil && *l.Pos != *r.Pos {
+			return l.Pos.IsBefore(r.Pos)
+		}
+		return ks[i] < ks[j]
+	})
+	return ks
 }
